@@ -29,7 +29,7 @@ func TestDebugTrace(t *testing.T) {
 	s = decorate(r, idx, s)
 	for iter := 0; iter < 300; iter++ {
 		hit := false
-	fmt.Fprintln(os.Stderr, "ITER", iter)
+		fmt.Fprintln(os.Stderr, "ITER", iter)
 		synctest.Test(t, func(t *testing.T) {
 			o := reconlib.Run(s)
 			res := judge(o)
